@@ -4,6 +4,7 @@ import (
 	"fmt"
 	"math"
 	"reflect"
+	"sort"
 	"strings"
 	"unsafe"
 
@@ -123,6 +124,25 @@ type conv struct {
 
 func fillConv(p *conv, k int) {
 	*p = conv{Pre: int8(k + 1), S: NameStr([]string{"", "a", "bcd"}[k]), Y: [][]byte{nil, {1}, {2, 3}}[k], I: I16(k * 100), f: F32(k) + 0.5, W: I64(k) << 40, Post: [3]byte{7, 8, 9}}
+}
+
+var interned = map[string]string{}
+
+// copyPtrLens focuses on W through a pointer to a copy; derefLens reads and writes through such a pointer.
+type copyPtrLens struct{}
+
+func (copyPtrLens) Get(s *conv) *I64 { v := s.W; return &v }
+func (copyPtrLens) Put(s *conv, a *I64) *conv {
+	s.W = *a
+	return s
+}
+
+type derefLens struct{}
+
+func (derefLens) Get(s **I64) int { return int(**s) }
+func (derefLens) Put(s **I64, b int) **I64 {
+	**s = I64(b)
+	return s
 }
 
 func asPtr[T, F any](p *F) *T { return (*T)(unsafe.Pointer(p)) }
@@ -572,6 +592,49 @@ func init() {
 			LensBy(c, "Join(In, BiMapI(num))", ji, func(p *wrap, b int) { p.In.I = I16(b) }, func(p *wrap) int { return int(p.In.I) }, []int{0, -3, 32000}, fillWrap)
 			jb := optics.Join(optics.ForProduct1[wrap, conv]("In"), optics.BiMap(optics.ForProduct1[conv, I64]("W"), func(a I64) int { return int(a) + 273 }, func(b int) I64 { return I64(b - 273) }))
 			LensBy(c, "Join(In, BiMap(W, +273, -273))", jb, func(p *wrap, b int) { p.In.W = I64(b - 273) }, func(p *wrap) int { return int(p.In.W) + 273 }, []int{0, 273, 5}, fillWrap)
+		})
+		Derive(c, "Join whose intermediate focus is a reference (map, pointer) computed by the outer optic", func() {
+			// the outer optic decodes a map from a text field / hands out a pointer to a copy: what Join reads is a fresh
+			// value every time, so the inner update counts only if Join writes the intermediate value back
+			dec := func(a NameStr) map[string]int {
+				m := map[string]int{}
+				for _, kv := range strings.Split(string(a), ",") {
+					var k string
+					var v int
+					if n, _ := fmt.Sscanf(strings.ReplaceAll(kv, "=", " "), "%s %d", &k, &v); n == 2 {
+						m[k] = v
+					}
+				}
+				return m
+			}
+			enc := func(m map[string]int) NameStr {
+				var ks []string
+				for k := range m {
+					ks = append(ks, k)
+				}
+				sort.Strings(ks)
+				var parts []string
+				for _, k := range ks {
+					parts = append(parts, fmt.Sprintf("%s=%d", k, m[k]))
+				}
+				// equal texts share their storage, so that the byte comparison of subject and twin sees equal string headers
+				t := strings.Join(parts, ",")
+				if u, ok := interned[t]; ok {
+					return NameStr(u)
+				}
+				interned[t] = t
+				return NameStr(t)
+			}
+			fillKV := func(p *conv, k int) { fillConv(p, k); p.S = NameStr([]string{"", "a=1", "a=7,b=2"}[k]) }
+			for _, key := range []string{"a", "b"} {
+				key := key
+				jm := optics.Join(optics.BiMap(optics.ForProduct1[conv, NameStr]("S"), dec, enc), optics.NewLensM[map[string]int, string, int](key))
+				LensBy(c, fmt.Sprintf("Join(BiMap(S, decode, encode), NewLensM(%q))", key), jm,
+					func(p *conv, b int) { m := dec(p.S); m[key] = b; p.S = enc(m) }, func(p *conv) int { return dec(p.S)[key] }, []int{5, -1, 12}, fillKV)
+			}
+			jp := optics.Join[conv, *I64, int](copyPtrLens{}, derefLens{})
+			LensBy(c, "Join(<lens handing out a pointer to a copy of W>, <lens through that pointer>)", jp,
+				func(p *conv, b int) { p.W = I64(b) }, func(p *conv) int { return int(p.W) }, []int{0, -3, 1 << 40}, fillConv)
 		})
 		Derive(c, "BiMapF", func() {
 			LensBy(c, "BiMapF[conv, F32, float64](\"f\")", optics.BiMapF[conv, F32, float64]("f"), func(p *conv, b float64) { p.f = F32(b) }, func(p *conv) float64 { return float64(p.f) }, []float64{0, -1.5, 1024.25}, fillConv)
